@@ -601,5 +601,6 @@ func c19Timelines(c *Ctx) {
 
 func runC19(c *Ctx) {
 	c19Reducers(c)
+	c19Loop(c)
 	c19Timelines(c)
 }
